@@ -30,7 +30,7 @@ var c16dVocabulary = []string{
 	"toggle", "toggle+down", "toggle-in", "toggle-out", "select-all", "deselect-all", "toggle-all", "clear-selection", "select", "deselect",
 	"beginning-of-line", "end-of-line", "backward-char", "forward-char", "backward-word", "forward-word",
 	"delete-char", "backward-delete-char", "kill-line", "kill-word", "backward-kill-word", "unix-line-discard", "unix-word-rubout", "yank",
-	"clear-query", "change-query(ab)", "change-query(c d)", "put(e)", "put(a b)", "put( )", "put(日é)",
+	"clear-query", "replace-query", "change-query(ab)", "change-query(c d)", "put(e)", "put(a b)", "put( )", "put(日é)",
 	"toggle-sort", "change-multi(2)", "change-multi", "change-prompt(p> )", "toggle-search", "search(ab)", "exclude", "change-nth(2)", "change-nth()",
 	// (no toggle-track: where a tracked line has gone, the cursor falls back on its screen row, i.e. on the
 	// scroll offset, which depends on which intermediate lists happened to be drawn)
